@@ -998,6 +998,21 @@ static void run_ops(op_t *ops, int nops)
             if (p > 0) { int st; while (waitpid(p, &st, 0) < 0 && errno == EINTR) ; emit_simple('w', WIFSIGNALED(st) ? "signal" : "exit"); return; }
             prctl(PR_SET_PDEATHSIG, SIGKILL);
             break; }
+        case 'b': { /* background job: the rest of the scenario runs in a child that sits in a BACKGROUND process group of the controlling
+                       terminal (like `cmd &` under a job-control shell); the parent stays its foreground session leader and watches */
+            fflush(NULL);
+            pid_t p = fork();
+            if (p < 0) { ev_error("fork bg"); break; }
+            if (p == 0) { setpgid(0, 0); prctl(PR_SET_PDEATHSIG, SIGKILL); break; }
+            setpgid(p, p);
+            int st = 0;
+            for (;;) { pid_t w = waitpid(p, &st, WUNTRACED); if (w < 0 && errno == EINTR) continue; break; }
+            if (WIFSTOPPED(st)) {
+                char m[80]; snprintf(m, sizeof m, "caller stopped by signal %d inside the scenario", WSTOPSIG(st));
+                ev_error(m); kill(p, SIGKILL); waitpid(p, &st, 0);
+            }
+            emit_simple('w', WIFSIGNALED(st) ? "signal" : "exit");
+            return; }
         case 'F': op_chain(ops, nops, i); return;
         case 'p': { /* fill the receive queue of the datagram socket at <path> until EAGAIN (nobody reads it) */
             char *pth = dupz(op->a[0].p, op->a[0].len);
